@@ -3,6 +3,7 @@ package rules
 import (
 	"fmt"
 	"go/token"
+	"go/types"
 	"strings"
 
 	"golang.org/x/tools/go/ssa"
@@ -72,6 +73,8 @@ func runC14(c *core.Ctx) {
 		c.Doc("C13.forwarding", "subscribers are forwarded Event messages only, in order, channel closed once", 6)
 		ruleForwarders(c, a)
 	}
+	c.Doc("C14.declared-type", "a client write reaches the validator, the save and the event only when its signature is the property's declared one", 3)
+	ruleDeclaredType(c)
 	c.Doc("C14.stateless-meta", "MetaObject lookups (the id a change event is emitted under) keep no package-level cache", 1)
 	rulePackageKeepsNoCache(c, "C14.stateless-meta", "type/object")
 	c.Doc("C13.sequential", "change events are written to every subscriber by the emitting goroutine, in order (rule shared with C13)", 1)
@@ -332,4 +335,151 @@ func forwardTarget(fn *ssa.Function) *ssa.Function {
 		target = h
 	}
 	return target
+}
+
+// ruleDeclaredType: "always of the property's declared type".  A client write
+// carries its own signature; objectImpl.SetProperty lets it reach the
+// validator (which decodes the bytes as the declared type whatever they are),
+// the save and the change event only across a successful comparison of that
+// signature with MetaProperty.Signature of the property — made in place or by a
+// helper whose nil result is the guard.  Without it a string written into an
+// int32 property is validated by its length prefix, stored under its own
+// signature, and every typed read fails afterwards (D27).
+func ruleDeclaredType(c *core.Ctx) {
+	const rule = "C14.declared-type"
+	fn := c.Func("bus", "objectImpl", "SetProperty")
+	save := c.Func("bus", "objectImpl", "saveProperty")
+	var sigF *types.Var
+	if p := c.Pkg("type/object"); p != nil {
+		if tn, ok := p.Types.Scope().Lookup("MetaProperty").(*types.TypeName); ok {
+			if st, ok := tn.Type().Underlying().(*types.Struct); ok {
+				for i := 0; i < st.NumFields(); i++ {
+					if st.Field(i).Name() == "Signature" {
+						sigF = st.Field(i)
+					}
+				}
+			}
+		}
+	}
+	key := "bus.objectImpl.SetProperty"
+	if fn == nil || save == nil || sigF == nil {
+		c.Undecided(rule, key, token.NoPos, "anchor not found (SetProperty, saveProperty or MetaProperty.Signature)")
+		return
+	}
+	var isDeclD func(v ssa.Value, d int) bool
+	isDeclD = func(v ssa.Value, d int) bool {
+		if isFieldOf(v, sigF) {
+			return true
+		}
+		// a local that receives the declared signature in a search loop
+		if ph, ok := core.Canon(v).(*ssa.Phi); ok && d < 3 {
+			for _, e := range ph.Edges {
+				if isDeclD(e, d+1) {
+					return true
+				}
+			}
+		}
+		return false
+	}
+	isDecl := func(v ssa.Value) bool { return isDeclD(v, 0) }
+	any := func(ssa.Value) bool { return true }
+	// comparesParam: does f compare MetaProperty.Signature with its parameter idx (== or !=)?
+	comparesParam := func(f *ssa.Function, idx int) bool {
+		if f == nil || idx >= len(f.Params) {
+			return false
+		}
+		for _, b := range f.Blocks {
+			for _, in := range b.Instrs {
+				bo, ok := in.(*ssa.BinOp)
+				if !ok || (bo.Op != token.EQL && bo.Op != token.NEQ) {
+					continue
+				}
+				x, y := core.Canon(bo.X), core.Canon(bo.Y)
+				if (isDecl(bo.X) && y == ssa.Value(f.Params[idx])) || (isDecl(bo.Y) && x == ssa.Value(f.Params[idx])) {
+					return true
+				}
+			}
+		}
+		return false
+	}
+	// the signature of the value written: Value.Signature() of a parameter, or the string
+	// read back from the value's own encoding
+	var isWrittenSig func(v ssa.Value) bool
+	isWrittenSig = func(v ssa.Value) bool {
+		v = core.Canon(v)
+		// "(" + sig + ")": the tuple-wrapped form a declaration may use
+		if bo, ok := v.(*ssa.BinOp); ok && bo.Op == token.ADD {
+			return isWrittenSig(bo.X) || isWrittenSig(bo.Y)
+		}
+		if ex, ok := v.(*ssa.Extract); ok {
+			v = ex.Tuple
+		}
+		call, ok := v.(*ssa.Call)
+		if !ok {
+			return false
+		}
+		cc := call.Common()
+		if cc.IsInvoke() && cc.Method.Name() == "Signature" {
+			return true
+		}
+		if f := cc.StaticCallee(); f != nil && f.Name() == "ReadString" {
+			return true
+		}
+		return false
+	}
+	var guards []core.EdgeMatcher
+	for _, call := range core.Calls(fn) {
+		cl, ok := call.(*ssa.Call)
+		if !ok {
+			continue
+		}
+		f := cl.Call.StaticCallee()
+		if f == nil || f.Pkg != fn.Pkg || hasErrorResult(f.Signature) < 0 {
+			continue
+		}
+		args := cl.Call.Args
+		for j, a := range args {
+			if isWrittenSig(a) && comparesParam(f, j) {
+				the := cl
+				guards = append(guards, core.Eq(func(v ssa.Value) bool {
+					cr, _ := core.CallResult(v)
+					return cr != nil && cr == the
+				}, core.IsNilConst))
+			}
+		}
+	}
+	// in place: declared == written
+	guards = append(guards, core.Eq(isDecl, func(v ssa.Value) bool { return isWrittenSig(v) }))
+	_ = any
+	guard := core.AnyOf(guards...)
+	n := 0
+	for _, call := range core.Calls(fn) {
+		cc := call.Common()
+		what := ""
+		if !cc.IsInvoke() && cc.StaticCallee() == nil {
+			p := core.AccessPath(cc.Value)
+			if len(p.Fields) > 0 && p.Fields[len(p.Fields)-1].Name() == "onPropertyChange" {
+				what = "validator"
+			}
+		}
+		if core.IsCallTo(call, save) {
+			what = "save"
+		}
+		if f := cc.StaticCallee(); f != nil && f.Name() == "UpdateProperty" {
+			what = "notify"
+		}
+		if cc.IsInvoke() && cc.Method.Name() == "UpdateProperty" {
+			what = "notify"
+		}
+		if what == "" {
+			continue
+		}
+		n++
+		c.Check(core.Guarded(fn, call.(ssa.Instruction), guard), rule, key+"/"+what, call.Pos(),
+			"reached only across a successful comparison of the written value's signature with the declared one",
+			"the "+what+" step of a client write is reached without the signature of the value having been compared with the property's declared signature (MetaProperty.Signature): a value of another type (a string into an int32 property) is validated by whatever its first bytes decode to, stored under its own signature and announced; every typed read of the property then fails for all clients")
+	}
+	if n < 3 {
+		c.Undecided(rule, key, fn.Pos(), fmt.Sprintf("only %d of the validator / save / notify steps found in SetProperty", n))
+	}
 }
